@@ -80,13 +80,18 @@ def bsearch (p : Nat → Bool) : Nat → Nat → Nat → Nat
       if p h then bsearch p f i h else bsearch p f (h + 1) j
     else i
 
+/-- `SearchIndex` over any boundary function and clamp: `clamp (sort.Search n (fun i => pred (nps i) x))` -/
+def searchWith (npsF : Nat → Nat) (pred : Pred) (clamp : Nat → Nat) (n x : Nat) : Nat :=
+  clamp (bsearch (fun i => holds pred (npsF i) x) n 0 n)
+
 def searchUInt64s (c : Cfg) (n x : Nat) : Nat :=
   bsearch (fun i => holds c.searchPred (nps c n i) x) n 0 n
 
-/-- `SearchIndex`: `if i < 0 || i >= int(r.numbs) { return 0 }; return i` (for `numbs < 2^63`) -/
-def searchIndex (c : Cfg) (n x : Nat) : Nat :=
-  let i := searchUInt64s c n x
-  if i ≥ n then 0 else i
+/-- the clamp `if i < 0 || i >= int(r.numbs) { return 0 }; return i` (for `numbs < 2^63`) -/
+def clampSpec (n i : Nat) : Nat := if i ≥ n then 0 else i
+
+/-- `SearchIndex` -/
+def searchIndex (c : Cfg) (n x : Nat) : Nat := searchWith (nps c n) c.searchPred (clampSpec n) n x
 
 /-! ### keys -/
 
